@@ -140,3 +140,52 @@ def oracle(c, outs):
             if hi[i] != r1 or lo[i] != r0:
                 return "k_decompose: coefficient %d of input %d: first operand %d second %d, expected high %d low %d" % (i, a, hi[i], lo[i], r1, r0)
     return None
+
+
+def extra(rep, cov, tier, rng):
+    """Sweeps: checksum of outputs over whole ranges, model vs crate, plus the predicate evaluated by the harness on every
+    input. Thorough: EXHAUSTIVE over [0,q) (power2round, decompose, use_hint x {0,1}) and over all (w1, a0) with |a0| < 2*gamma2
+    (make_hint); quick: a few random windows of 50 000 values."""
+    from vcore import MODELRUN, DVH_REL, DVH_DEV, run_runner
+    lines, meta = [], []
+    def add(fnid, copy, fixed, lo, hi):
+        lines.append("%d sweep %s i%d %d %d %d" % (len(lines), copy, fnid, fixed, lo, hi)); meta.append((fnid, copy, fixed, lo, hi))
+    if tier == "thorough":
+        CH = 262144
+        for lo in range(0, Q, CH):
+            hi = min(Q, lo + CH)
+            add(0, "-", 0, lo, hi)
+            for lv in LEVELS:
+                add(1, lv, 0, lo, hi); add(4, lv, 0, lo, hi); add(4, lv, 1, lo, hi)
+        for lv in LEVELS:
+            G = GS[lv]; m = 44 if lv == "lvl2" else 16
+            for w1 in range(m):
+                add(5, lv, w1, -2 * G + 1, 2 * G)
+    else:
+        for _ in range(3):
+            lo = rng.randrange(0, Q - 50000)
+            add(0, "-", 0, lo, lo + 50000)
+            for lv in LEVELS:
+                add(1, lv, 0, lo, lo + 50000); add(4, lv, rng.randrange(2), lo, lo + 50000)
+        for lv in LEVELS:
+            G = GS[lv]
+            add(1, lv, 0, Q - 60000, Q); add(4, lv, 1, Q - 60000, Q); add(5, lv, rng.randrange(44 if lv == "lvl2" else 16), -G - 25000, -G + 25000)
+    (m, _), (d, _), (r, _) = run_runner(MODELRUN, lines, 16, 3000), run_runner(DVH_DEV, lines, 8, 3000), run_runner(DVH_REL, lines, 8, 3000)
+    total = 0
+    names = ["power2round", "decompose", "caddq", "reduce32", "use_hint", "make_hint"]
+    for i, (fnid, copy, fixed, lo, hi) in enumerate(meta):
+        total += hi - lo
+        mo, do, ro = m.get(i, "").split(), d.get(i, "").split(), r.get(i, "").split()
+        case = {"fn": "sweep", "copy": copy, "args": ["i%d" % fnid, str(fixed), str(lo), str(hi)]}
+        if len(do) < 5 or do[0] != "ok" or do != ro:
+            rep.violation("sweep of %s/%s over [%d,%d): checked and release builds differ or failed" % (names[fnid], copy, lo, hi), {"cases": [case]}, False)
+        elif int(do[3]) != 0:
+            rep.violation("%s/%s violates its specification at input %s (fixed argument %d); %s failing inputs in [%d,%d)" %
+                          (names[fnid], copy, do[4], fixed, do[3], lo, hi),
+                          {"cases": [{"fn": names[fnid], "copy": copy, "args": [do[4], str(fixed)] if fnid >= 4 else [do[4]]}]}, True)
+        elif mo[:3] != do[:3]:
+            rep.violation("sweep of %s/%s over [%d,%d): crate output checksum differs from the model's" % (names[fnid], copy, lo, hi),
+                          {"cases": [case], "broken": ["correspondence %s/%s" % (names[fnid], copy)]}, False)
+    cov["swept_inputs"] = total
+    cov["exhaustive"] = (tier == "thorough")
+    cov["evaluations"] = cov.get("evaluations", 0) + total
